@@ -55,4 +55,12 @@ F41 tolerates values that only make sense at run time
 F42 mock objects get the signature inspect gives them
 F43 does not resolve an attribute the function itself assigns
 F44 falls back when the callee cannot be introspected
+F45a the Sphinx hook does not raise for modules
+F45c the Sphinx hook shows every parameter of a static method
+F46 methods can be looked up when binding uses up the named parameter
+F47 a partial object binding a keyword spelled like a star parameter
+F48 known arguments that do not fit the function
+F49 apply_params without sources= no longer shares
+F50 modifiers.annotate can annotate a parameter called self
+F53 annotations of functools.wraps wrappers are resolved
 LIST
